@@ -163,11 +163,12 @@ func runC31(c *eng.Ctx) {
 		// cancellation arm returning (the deferred close then runs at that return)
 		if !closes && blk != nil {
 			deferred := false
-			for _, in := range run.Blocks[0].Instrs {
-				if d, ok := in.(*ssa.Defer); ok && eng.CalleeName(d) == "builtin:close" && eng.ChanField(d.Call.Args[0]) == doneF {
+			// registered on every way into the loop: its block dominates the select
+			eng.EachInstr(run, func(in ssa.Instruction) {
+				if d, ok := in.(*ssa.Defer); ok && eng.CalleeName(d) == "builtin:close" && eng.ChanField(d.Call.Args[0]) == doneF && d.Block().Dominates(main.Block()) {
 					deferred = true
 				}
-			}
+			})
 			returns := false
 			for _, b := range dominatedBlocks(blk) {
 				if _, ok := b.Instrs[len(b.Instrs)-1].(*ssa.Return); ok {
